@@ -59,7 +59,11 @@ TRUSTED = ['harness/c20_dtx.c records the locals activity / is_silence / analysi
 
 def _harness(ctx, variant):
     """Compile the harness; the shared library cache may be pruned by concurrent runs, so retry once with a fresh build."""
-    extra = ['-fno-sanitize=float-cast-overflow'] if variant == 'san' else []
+    cal = json.load(open(os.path.join(common.VERIF, 'tools', 'c20_calibration.json')))
+    extra = ['-DC20_ACT_MIN_DB=(%r)' % cal['act_db_min'], '-DC20_ACT_MAX_DB=(%r)' % cal['act_db_max'],
+             '-DC20_GAP_MAX_DB=(%r)' % cal['gap_db_max']]
+    if variant == 'san':
+        extra.append('-fno-sanitize=float-cast-overflow')
     for attempt in (0, 1):
         try:
             if not os.path.exists(ctx.lib(variant).a):
